@@ -86,6 +86,11 @@ TEXT = {
   level_text="Generated write/reply/pause histories check every deadline the NAT entry sets against t0+timeout (17 s for DNS), monotonicity and the single permitted fast close; generated batches of concurrent clients with DNS and non-DNS scripts check, on real sockets, liveness before the promised instant (sound lower bounds), removal exactly once, release of the outbound port, fast close, the 17 s promise under a short configured timeout and reclamation at shutdown.",
   level_note="The in-package executor uses only identifiers the repository's own udp_test.go uses; real-time checks use generous upper bounds; 'eventually reclaimed' means within 2-3 s.",
  ),
+ "C15": dict(
+  technique="property-based testing (rapid): generated concurrent connection outcomes; recorded metric call sequences and the real collector vs. byte counts measured on the sockets",
+  level_text="Generated mixes of connection outcomes (completed relays, probes, replays, reflected salts, bad addresses, connect failures, resets on either side, corrupt chunks) run concurrently through the real TCP service; for each connection the recorded TCPConnMetrics call sequence and the four byte counters are compared with what the raw client and target sockets measured, and the real Prometheus collector's counters with the call log.",
+  level_note="Authentication expectations come from the scenario construction with an independent codec; reset outcomes admit a set of statuses.",
+ ),
 }
 def _na():
     from checks_table import CHECKS
